@@ -70,10 +70,27 @@ type fakeRegion struct {
 	master                    []byte
 	failGen, failEnc, failDec bool
 	wrongPlain                bool
+	errKind                   int // which error a failing call returns, see failure()
 	log                       *[]string
 	handed                    *[][]byte // plaintext data keys this node returned (retained to check wiping)
 	rnd                       *simrt.Rand
 	onHand                    func([]byte) // told about every plaintext data key this node hands out
+}
+
+// failure returns the error of a failing regional call: a service error, or a timeout-kind error of
+// the client (the caller's own context stays alive in every case).
+func (f *fakeRegion) failure() error {
+	switch f.errKind {
+	case 1:
+		return context.DeadlineExceeded
+	case 2:
+		return fmt.Errorf("RequestError: send request failed: %w", context.DeadlineExceeded)
+	case 3:
+		return context.Canceled
+	case 4:
+		return fmt.Errorf("operation error KMS: %w", context.Canceled)
+	}
+	return errors.New("KMSInternalException")
 }
 
 func (f *fakeRegion) gcm() cipher.AEAD {
@@ -101,7 +118,7 @@ func (f *fakeRegion) generate() ([]byte, []byte, error) {
 	f.s.Point(simrt.KSeam, "kms.generate")
 	*f.log = append(*f.log, "gen:"+f.region)
 	if f.failGen {
-		return nil, nil, errors.New("KMSInternalException")
+		return nil, nil, f.failure()
 	}
 	plain := make([]byte, 32)
 	f.rnd.Fill(plain)
@@ -118,7 +135,7 @@ func (f *fakeRegion) encrypt(plain []byte) ([]byte, error) {
 	// the request buffer holds the plaintext data key as well: it is retained like the ones handed out
 	*f.handed = append(*f.handed, plain)
 	if f.failEnc {
-		return nil, errors.New("KMSInternalException")
+		return nil, f.failure()
 	}
 	return f.seal(plain), nil
 }
@@ -127,7 +144,7 @@ func (f *fakeRegion) decrypt(blob []byte) ([]byte, error) {
 	f.s.Point(simrt.KSeam, "kms.decrypt")
 	*f.log = append(*f.log, "dec:"+f.region)
 	if f.failDec && !f.wrongPlain {
-		return nil, errors.New("KMSInternalException")
+		return nil, f.failure()
 	}
 	p, err := f.open(blob)
 	if err != nil {
@@ -267,6 +284,12 @@ func runC17(t *simrt.Tape, o Opts) Outcome {
 			return k, nil
 		}
 		wrapNodes, unwrapNodes := mkNodes(), mkNodes()
+		if !swept {
+			ek := t.Choose(5, "errkind")
+			for _, r := range regions {
+				wrapNodes[r].errKind, unwrapNodes[r].errKind = ek, ek
+			}
+		}
 		for i, r := range regions {
 			if wm>>i&1 == 1 {
 				wrapNodes[r].failGen = !encOnly
